@@ -19,6 +19,8 @@ def observable (h : String) : Bool := userLeaves.contains h || h == "subst"
 
 def parseCtx (s : String) : Ctx :=
   if s == "memoize" then .memoize
+  else if s == "memoS1" then .memoShared 1
+  else if s == "memoS2" then .memoShared 2
   else if s == "tape" then .tape
   else if s == "subst" then .subst true
   else if s == "subst0" then .subst false
@@ -30,7 +32,10 @@ def parseProg : Nat → Sexp → Option Prog
   | _ + 1, .atom "obs" => some .obs
   | _ + 1, .atom "raise" => some .raise
   | _ + 1, .atom "skip" => some .skip
-  | _ + 1, .list [.atom "probe", .atom k, b] => b.asBool?.map (Prog.probe k)
+  | _ + 1, .list [.atom "probe", .atom k, b, t] => do
+      let armed ← b.asBool?
+      let tok ← t.asNat?
+      pure (Prog.probe k armed tok)
   | f + 1, .list [.atom "with", .atom c, b] => (parseProg f b).map (Prog.withI (parseCtx c))
   | f + 1, .list [.atom "deco", .atom c, b] => (parseProg f b).map (Prog.deco (parseCtx c))
   | f + 1, .list [.atom "catch", b] => (parseProg f b).map Prog.catch
@@ -71,7 +76,7 @@ def handle (args : List Sexp) : String :=
       let r := names.foldl (fun (acc : Except Err Stack) n =>
         match acc with
         | .error e => .error e
-        | .ok s => enter env (parseCtx n) s) (.ok s0)
+        | .ok s => (enter env (parseCtx n) s 0).map Prod.fst) (.ok s0)
       match r with
       | .ok s => "ok " ++ canonStack s
       | .error e => "ok " ++ e.canon
@@ -82,7 +87,7 @@ def handle (args : List Sexp) : String :=
       let r := names.foldl (fun (acc : Except Err Stack) n =>
         match acc with
         | .error e => .error e
-        | .ok s => enter env (parseCtx n) s) (.ok s0)
+        | .ok s => (enter env (parseCtx n) s 0).map Prod.fst) (.ok s0)
       match r with
       | .ok s => match top? s with
         | some t => "ok " ++ (match handler env k t with | some h => h | none => "-")
